@@ -274,6 +274,40 @@ static void c11_units(int tier) {
     if (r && SQ.nfound < 12) { char key[200]; snprintf(key, sizeof key, "recycled record: first thread leaves a value under key %d (no destructor), second stores only under key %d", REP[a], REP[b]); char arg[80]; snprintf(arg, sizeof arg, "--part c11 --recycled %d:%d", REP[a], REP[b]); sq_found(key, arg, "%s", msg); }
   }
   sq_detail("%ld recycled-record cases; ", rc);
+  /* recycled key slots: a key is created (with / without a destructor), deleted, and its slot handed out again with the other choices;
+     the exiting thread's destructor calls must follow the registration of the LIVE key only */
+  long ks = 0;
+  for (int slot = 0; slot < 3 && SQ.nfound < 12; slot++) for (int old_d = 0; old_d < 2; old_d++) for (int new_d = 0; new_d < 2; new_d++) for (int posix = 0; posix < 2; posix++) {
+    int pfd[2]; if (pipe(pfd)) continue; fflush(NULL);
+    pid_t pid = fork();
+    if (pid == 0) {
+      close(pfd[0]); char m[300] = ""; int bad = 0;
+      myth_tls_key_allocator_init(KA);
+      int ks_[20], nk = 0;
+      for (int i = 0; i <= 17; i++) ks_[nk++] = myth_tls_key_allocator_alloc(KA, 0);            /* keys 0..17 live, no destructors */
+      int victim = slot == 0 ? 0 : (slot == 1 ? 15 : 17);
+      myth_tls_key_allocator_dealloc(KA, victim);
+      int k1 = myth_tls_key_allocator_alloc(KA, old_d ? d0 : 0);                                   /* first incarnation */
+      if (k1 != victim) { snprintf(m, sizeof m, "freed key %d not handed out again (got %d)", victim, k1); bad = 1; }
+      myth_tls_key_allocator_dealloc(KA, k1);
+      int k2 = myth_tls_key_allocator_alloc(KA, new_d ? d1 : 0);                                   /* second incarnation: the live one */
+      if (!bad && k2 != victim) { snprintf(m, sizeof m, "freed key %d not handed out again (got %d)", victim, k2); bad = 1; }
+      if (!bad && posix) KA->keys[k2].posix = 1;                                                     /* as myth_key_create_posix_body does */
+      static myth_tls_tree_t t[1]; myth_tls_tree_init(t);
+      if (!bad) { myth_tls_tree_set(t, k2, (void *)(long)(0x7000 + k2)); ndlog = 0; myth_tls_tree_fini(t, KA);
+	int c_old = 0, c_new = 0;
+	for (int j = 0; j < ndlog && j < 64; j++) { if (dlog[j].fn == 0) c_old++; if (dlog[j].fn == 1 && dlog[j].val == (void *)(long)(0x7000 + k2)) c_new++; }
+	if (c_old) { snprintf(m, sizeof m, "the destructor of the deleted incarnation of key %d was called %d time(s) at thread exit (the live key was registered %s)", k2, c_old, new_d ? "with another destructor" : "without a destructor"); bad = 1; }
+	else if (c_new != new_d) { snprintf(m, sizeof m, "the live key %d's destructor was called %d time(s) with its value, expected %d", k2, c_new, new_d); bad = 1; } }
+      if (write(pfd[1], m, strlen(m) + 1) < 0) {}
+      _exit(bad);
+    }
+    close(pfd[1]); ssize_t k = read(pfd[0], msg, sizeof msg - 1); if (k < 0) k = 0; msg[k] = 0; close(pfd[0]);
+    int st = 0; waitpid(pid, &st, 0); ks++; SQ.states++; SQ.evaluations++; SQ.transitions += 8;
+    int r = WIFEXITED(st) ? WEXITSTATUS(st) : 1; if (!WIFEXITED(st) || WEXITSTATUS(st) > 1) snprintf(msg, sizeof msg, "thread exit crashed / sanitizer abort");
+    if (r && SQ.nfound < 12) { char key[200]; snprintf(key, sizeof key, "recycled key slot %s: created %s a destructor, deleted, created again %s a destructor%s", slot == 0 ? "0" : slot == 1 ? "15" : "17", old_d ? "with" : "without", new_d ? "with" : "without", posix ? " (POSIX flavour)" : ""); sq_found(key, "--part c11", "%s", msg); }
+  }
+  sq_detail("%ld recycled-key-slot cases; ", ks);
   sq_detail("%ld destructor cases: every single key 0..1023, every subset of size <= %d of 13 representative keys x destructor mask x NULL/non-NULL mask; each in a forked child under ASan; ", cases, maxsz);
 }
 
